@@ -1950,6 +1950,9 @@ mod composite {
                 let mut comp_req = vec![];
                 let mut ok = true;
                 let mut expect_cnt = 0usize;
+                // model-independent expectation of the drawn points (exact 16.16 deltas / 65536, unrounded)
+                let mut expect: Vec<(f64, f64)> = vec![];
+                let mut shift = cdeltas[ncomp].0 as f64 / 65536.0;
                 for (i, c) in comps.iter().enumerate() {
                     let g = &simple[c.gid];
                     let mut points: Vec<(i32, i32)> = g.points().iter().map(|p| (p.0 as i32, p.1 as i32)).collect();
@@ -1961,6 +1964,9 @@ mod composite {
                     let adj: Vec<(i32, i32)> = (0..np).map(|k| (points[k].0 + to_i32(d[k].0), points[k].1 + to_i32(d[k].1))).collect();
                     let pp0x = to_i32(d[np].0);
                     expect_cnt += np;
+                    for k in 0..np { expect.push((points[k].0 as f64 + d[k].0 as f64 / 65536.0 + c.off.0 as f64 + cdeltas[i].0 as f64 / 65536.0,
+                        points[k].1 as f64 + d[k].1 as f64 / 65536.0 + c.off.1 as f64 + cdeltas[i].1 as f64 / 65536.0)); }
+                    if c.use_my_metrics { shift = d[np].0 as f64 / 65536.0; }
                     comp_req.push(format!("| C {} {},{} {} {}", c.use_my_metrics as u8, c.off.0, c.off.1, pp0x, pts_str(&adj)));
                     let _ = i;
                 }
@@ -1972,8 +1978,140 @@ mod composite {
                 if !matches!(r, Ok(Ok(()))) || pen.0.len() != expect_cnt || pen.1 != 0 { s.count("composite:draw-skipped"); continue; }
                 let drawn: Vec<(i32, i32)> = pen.0.iter().map(|p| (p.0 as i32, p.1 as i32)).collect();
                 s.count(&format!("composite:use-my-metrics~{}", comps.iter().filter(|c| c.use_my_metrics).count().min(2)));
+                // three roundings (child delta, component delta, phantom shift), half a unit each
+                let worst = pen.0.iter().zip(&expect).map(|(g, w)| (g.0 as f64 - (w.0 - shift)).abs().max((g.1 as f64 - w.1).abs())).fold(0.0f64, f64::max);
+                s.oracle("composite-draw-equals-children-plus-offsets-plus-deltas", worst <= 1.5 + 1e-3, input, || format!("worst deviation {worst}; drawn {:?} expected {:?} shift {shift}", pen.0, expect));
                 s.case("draw composite (unscaled, FreeType style) = children + offset + to_i32(delta) - pp1.x",
                     format!("ap.cadjust 0 | {} {}", pts_str(&cdeltas), comp_req.join(" ")), pts_str(&drawn));
+            }
+        }
+    }
+}
+
+mod f64path {
+    //! The f64 arithmetic of the IUP optimiser vs the exact IEEE model (Model/IupF64.lean), bit exact:
+    //! `iup_segment` and `can_iup_in_between` (verif hooks) on integer, fractional and special
+    //! inputs; the values `iup_delta_optimize` writes for non-integer deltas (`ot_round`).
+    //! Oracle for the stated assumption: on integer inputs below 2^26 whose exact interpolation is a
+    //! dyadic rational with a short expansion, the f64 result IS the exact rational.
+    use super::*;
+    use kurbo::{Point as KPoint, Vec2};
+    use write_fonts::tables::gvar::iup::{iup_delta_optimize, verif_hooks::{can_iup_in_between, iup_segment}};
+
+    /// exact rendering of an f64, same format as the Lean `FVal.show`
+    pub fn show(x: f64) -> String {
+        if x.is_nan() { return "nan".into(); }
+        if x.is_infinite() { return if x < 0.0 { "-inf".into() } else { "inf".into() }; }
+        let bits = x.to_bits();
+        let neg = bits >> 63 == 1;
+        let ex = ((bits >> 52) & 0x7ff) as i64;
+        let frac = bits & ((1u64 << 52) - 1);
+        let (mut m, mut e) = if ex == 0 { (frac, -1074i64) } else { (frac | (1u64 << 52), ex - 1075) };
+        let sg = if neg { "-" } else { "" };
+        if m == 0 { return format!("{sg}0"); }
+        while m % 2 == 0 { m /= 2; e += 1; }
+        format!("{sg}{m}e{e}")
+    }
+
+    fn pick(rng: &mut Rng, style: u64) -> f64 {
+        match style {
+            0 => rng.range(-4, 4) as f64,
+            1 => rng.range(-1200, 1200) as f64,
+            2 => rng.range(-(1 << 25), 1 << 25) as f64,
+            3 => rng.range(-4000, 4000) as f64 / *rng.pick(&[2.0, 4.0, 8.0, 3.0, 10.0, 7.0]),
+            4 => *rng.pick(&[0.0, -0.0, 0.5, -0.5, 1e-310, 1e300, -1e300, f64::INFINITY, f64::NEG_INFINITY, f64::NAN, f64::MIN_POSITIVE, 9007199254740993.0, 0.49999999999999994]),
+            _ => f64::from_bits(rng.next()),
+        }
+    }
+
+    pub fn run(cfg: &Config, s: &mut Session, rng: &mut Rng) {
+        // ---- iup_segment, one point, one axis (x carries the case, y a second independent one)
+        let n = if cfg.thorough() { 400_000 } else { 30_000 };
+        for i in 0..n {
+            let style = if i % 10 < 6 { rng.below(3) } else { rng.below(6) };
+            let mut v: Vec<f64> = (0..10).map(|_| pick(rng, style)).collect();
+            if rng.chance(1, 5) { v[2] = v[0]; } // c1 == c2
+            if rng.chance(1, 5) { v[3] = v[1]; } // d1 == d2
+            if rng.chance(1, 6) { v[4] = *rng.pick(&[v[0], v[2]]); } // c on a reference
+            let (c1, d1, c2, d2, c) = (v[0], v[1], v[2], v[3], v[4]);
+            let (c1y, d1y, c2y, d2y, cy) = (v[5], v[6], v[7], v[8], v[9]);
+            let r = catch(|| iup_segment(&[KPoint::new(c, cy)], KPoint::new(c1, c1y), Vec2::new(d1, d1y), KPoint::new(c2, c2y), Vec2::new(d2, d2y)));
+            let Ok(r) = r else { s.oracle("iup-segment-no-panic", false, || format!("{v:?}"), || "panic".into()); continue };
+            s.case("iup_segment (f64, x axis)", format!("f64.seg {} {} {} {} {}", c1.to_bits(), d1.to_bits(), c2.to_bits(), d2.to_bits(), c.to_bits()), show(r[0].x));
+            s.case("iup_segment (f64, y axis)", format!("f64.seg {} {} {} {} {}", c1y.to_bits(), d1y.to_bits(), c2y.to_bits(), d2y.to_bits(), cy.to_bits()), show(r[0].y));
+            // the stated assumption: integer inputs below 2^26, exact interpolation a dyadic rational whose
+            // scale (d2 - d1) / (c2 - c1) is itself exactly representable => f64 result == exact rational
+            if style <= 2 {
+                let (a1, b1, a2, b2, cc) = (c1 as i128, d1 as i128, c2 as i128, d2 as i128, c as i128);
+                if a1 != a2 {
+                    let (lo, hi, dlo, dhi) = if a1 > a2 { (a2, a1, b2, b1) } else { (a1, a2, b1, b2) };
+                    if lo < cc && cc < hi {
+                        let (num, den) = (dhi - dlo, hi - lo);
+                        // scale = num/den is dyadic iff den / gcd(num, den) is a power of two
+                        fn gcd(a: i128, b: i128) -> i128 { if b == 0 { a.abs().max(1) } else { gcd(b, a % b) } }
+                        let g = gcd(num, den);
+                        let dd = den / g;
+                        let dyadic = dd & (dd - 1) == 0;
+                        let exact_num = dlo * den + (cc - lo) * num; // / den
+                        let got = r[0].x;
+                        let is_exact = if got == 0.0 { exact_num == 0 } else { got.is_finite() && (got * den as f64 == exact_num as f64) && {
+                            // exact comparison in integers: got = m * 2^e
+                            let bits = got.to_bits(); let ex = ((bits >> 52) & 0x7ff) as i64; let frac = (bits & ((1u64 << 52) - 1)) as i128;
+                            let (m, e) = if ex == 0 { (frac, -1074i64) } else { (frac | (1i128 << 52), ex - 1075) };
+                            let m = if got < 0.0 { -m } else { m };
+                            if e >= 0 { e < 60 && m.checked_mul(1i128 << e).and_then(|x| x.checked_mul(den)) == Some(exact_num) }
+                            else if -e < 100 { m.checked_mul(den) == exact_num.checked_mul(1i128 << (-e)) } else { false } } };
+                        if dyadic { s.oracle("f64-interpolation-exact-when-scale-is-dyadic", is_exact, || format!("c1 {c1} d1 {d1} c2 {c2} d2 {d2} c {c}"), || format!("f64 {} exact {exact_num}/{den}", show(got))); s.count("f64:dyadic-scale"); }
+                        else { s.count(if is_exact { "f64:non-dyadic-scale-but-exact" } else { "f64:non-dyadic-scale-inexact" }); }
+                    }
+                }
+            }
+        }
+        // ---- can_iup_in_between on small contours
+        let n = if cfg.thorough() { 60_000 } else { 5000 };
+        for _ in 0..n {
+            let len = 3 + rng.below(6) as usize;
+            let style = rng.below(5);
+            let cs: Vec<(f64, f64)> = (0..len).map(|_| (pick(rng, style.min(3)), pick(rng, style.min(3)))).collect();
+            let ds: Vec<(f64, f64)> = (0..len).map(|_| (pick(rng, style), pick(rng, style))).collect();
+            let tol = *rng.pick(&[0.0, 0.5, 0.5, 1.0, 2.0, 0.3, 1e-9, 4.0]);
+            let from: isize = if rng.chance(1, 4) { -1 } else { rng.below(len as u64 - 2) as isize };
+            let to_min = (from + 2) as usize;
+            if to_min >= len { continue; }
+            let to = to_min + rng.below((len - to_min) as u64) as usize;
+            let kc: Vec<KPoint> = cs.iter().map(|p| KPoint::new(p.0, p.1)).collect();
+            let kd: Vec<Vec2> = ds.iter().map(|p| Vec2::new(p.0, p.1)).collect();
+            let r = catch(|| can_iup_in_between(&kd, &kc, tol, from, to as isize));
+            let canon = match r { Ok(Some(b)) => (b as u8).to_string(), Ok(None) => "invalid".into(), Err(_) => "trap".into() };
+            s.oracle("can-iup-in-between-total", canon != "trap" && canon != "invalid", || format!("{cs:?} {ds:?} {from} {to}"), || canon.clone());
+            s.count(&format!("f64:can-iup={canon}"));
+            let f = |v: &[(f64, f64)]| join(&v.iter().map(|p| format!("{},{}", p.0.to_bits(), p.1.to_bits())).collect::<Vec<_>>());
+            s.case("can_iup_in_between (f64)", format!("f64.can {} {from} {to} | {} | {}", tol.to_bits(), f(&cs), f(&ds)), canon);
+        }
+        // ---- values written for non-integer deltas
+        let n = if cfg.thorough() { 30_000 } else { 3000 };
+        for _ in 0..n {
+            let npts = 1 + rng.below(4) as usize;
+            let mut ds: Vec<(f64, f64)> = (0..npts).map(|_| {
+                let style = rng.below(6);
+                let mk = |rng: &mut Rng| match style {
+                    0 => rng.range(-40000, 40000) as f64 / 2.0,
+                    1 => rng.range(-70000, 70000) as f64 + *rng.pick(&[0.5, -0.5, 0.49999999999999994, 0.25, 0.0]),
+                    2 => *rng.pick(&[32767.5, 32767.49, -32768.5, -32768.51, 1e30, -1e30, f64::NAN, f64::INFINITY, f64::NEG_INFINITY, -0.0, 0.49999999999999994, -0.5000000000000001]),
+                    _ => rng.range(-300000, 300000) as f64 / *rng.pick(&[3.0, 7.0, 10.0, 16.0]),
+                };
+                (mk(rng), mk(rng)) }).collect();
+            for _ in 0..4 { ds.push((0.0, 0.0)); }
+            let mut cs: Vec<KPoint> = (0..npts).map(|i| KPoint::new(10.0 * i as f64, rng.range(0, 50) as f64)).collect();
+            for i in 0..4 { cs.push(KPoint::new(if i == 1 { 500.0 } else { 0.0 }, 0.0)); }
+            let dv: Vec<Vec2> = ds.iter().map(|d| Vec2::new(d.0, d.1)).collect();
+            let ends = vec![npts - 1];
+            let Ok(Ok(out)) = catch(move || iup_delta_optimize(dv, cs, 0.0, &ends)) else { s.count("f64:optimize-refused"); continue };
+            for (d, o) in ds.iter().zip(&out) {
+                s.case("iup_delta_optimize values = ot_round (f64)", format!("f64.round {} {}", d.0.to_bits(), d.1.to_bits()), format!("{} {}", o.x, o.y));
+                // independent oracle: round half up, saturating, NaN -> 0
+                let hu = |x: f64| -> i16 { if x.is_nan() { 0 } else { let f = (x + 0.5).floor(); if f >= 32767.0 { 32767 } else if f <= -32768.0 { -32768 } else { f as i16 } } };
+                s.oracle("written-delta-is-ot-round", (o.x, o.y) == (hu(d.0), hu(d.1)), || format!("{d:?}"), || format!("{},{}", o.x, o.y));
             }
         }
     }
@@ -1987,6 +2125,7 @@ fn run(cfg: &Config, s: &mut Session) {
     gdata::run(cfg, s, &mut rng);
     apply::run(cfg, s, &mut rng);
     composite::run(cfg, s, &mut rng);
+    f64path::run(cfg, s, &mut rng);
     e2e::run(cfg, s, &mut rng);
 }
 
